@@ -100,6 +100,22 @@ func (Prop) Generate(seed uint64, tier string) *core.Plan {
 	}
 	nsets := 1 + r.Intn(3)
 	for i := 0; i < nsets; i++ {
+		if i > 0 && r.Intn(2) == 0 {
+			// a reload with an edit: the same set again with one script changed (callers keep their
+			// exact text; the callee they name differs) - and sometimes not changed at all
+			prev := w.Sets[r.Intn(i)]
+			cp := map[string]string{}
+			for k, v := range prev {
+				cp[k] = v
+			}
+			names := sortedNames(cp)
+			if r.Intn(4) != 0 {
+				n := names[r.Intn(len(names))]
+				cp[n] = corpus.GenScript(r, 90+i)
+			}
+			w.Sets = append(w.Sets, cp)
+			continue
+		}
 		w.Sets = append(w.Sets, corpus.GenSet(r))
 	}
 	nsrc := 1 + r.Intn(4)
